@@ -203,6 +203,7 @@ def execute(trace: dict) -> Outcome:
         steps=sum(len(o.snaps) for o in outs),
         sched_events=len(sim.choices),
         interleaving=spec.digest(sim.choices),
+        digest=worldrun.world_digest(sim, outs),
     )
 
 
